@@ -800,6 +800,11 @@ class BaseOdeModel(object):
             # else:
             #     raise InputError("Input type should either be a string or list")
 
+            # a range style name such as 'y1:4' expands to several states,
+            # each of them takes the limits declared for the range
+            n_expanded=[len(symbols(att.ID if isinstance(att, ODEVariable) else att, seq=True)) for att in attr_list]
+            lim_list=[lim for lim, n in zip(lim_list, n_expanded) for _ in range(n)]
+
             self._state_lims=lim_list                           # TODO: maybe assigning limits via a dict is tidier/safer
             self.__setattr__(attr_list_name, list(attr_list))
 
